@@ -33,12 +33,19 @@ func init() {
 	lang.SetFileExtensions(typeName, "yaml", "yml")
 }
 
+// marshalElement marshals an array element that is not a string. yaml.Marshal
+// terminates every document with a new line, which is not part of the element.
+func marshalElement(v any) ([]byte, error) {
+	b, err := yaml.Marshal(v)
+	return noCrLf(b), err
+}
+
 func readArray(ctx context.Context, read stdio.Io, callback func([]byte)) error {
-	return lang.ArrayTemplate(ctx, yaml.Marshal, yaml.Unmarshal, read, callback)
+	return lang.ArrayTemplate(ctx, marshalElement, yaml.Unmarshal, read, callback)
 }
 
 func readArrayWithType(ctx context.Context, read stdio.Io, callback func(any, string)) error {
-	return lang.ArrayWithTypeTemplate(ctx, typeName, yaml.Marshal, yaml.Unmarshal, read, callback)
+	return lang.ArrayWithTypeTemplate(ctx, typeName, marshalElement, yaml.Unmarshal, read, callback)
 }
 
 func noCrLf(b []byte) []byte {
